@@ -27,6 +27,8 @@ unchanged.  This module folds such edits back, on the syntax tree, so that the r
   * or-default       `if a: x = a else: x = b` -> `x = a or b` (a pure).
   * unnested-else    `if a: EXIT else: REST` -> `if a: EXIT` + REST.
   * split-exit       `return A if c else B` -> `if c: return A` + `return B`; `if a or b: EXIT` -> `if a: EXIT` + `if b: EXIT`.
+  * renamed-symbol   a method / module function of the reference decomposition that is missing while an unknown one in
+                     the same class / module has the same body digest gets its name back (parameters likewise).
   * renamed-local    a local defined exactly like a local of the pinned tree that is now missing gets its name back.
 
 Nothing here decides a property; the transformations are sound rewritings (conditions stated with each) and every node
@@ -269,6 +271,42 @@ class Subst(ast.NodeTransformer):
         return n
 
 
+def body_hash(fn):
+    """digest of what a function does, insensitive to its own name, to the names of its positional parameters, to its
+    docstring and to its log statements (a renamed method usually has its log prefixes renamed too)."""
+    import hashlib
+    params = [a.arg for a in fn.args.posonlyargs + fn.args.args]
+    idx = {p: '$p%d' % i for i, p in enumerate(params)}
+    body = []
+    for st in strip_doc(fn.body):
+        if isinstance(st, ast.Expr) and isinstance(st.value, ast.Call) and \
+                'logger' in ast.unparse(st.value.func).split('.'):
+            continue
+        body.append(st)
+    mod = copy.deepcopy(ast.Module(body=body, type_ignores=[]))
+
+    def logless(stmts):
+        out = []
+        for st in stmts:
+            if isinstance(st, ast.Expr) and isinstance(st.value, ast.Call) and \
+                    'logger' in ast.unparse(st.value.func).split('.'):
+                continue
+            if not isinstance(st, (ast.FunctionDef, ast.AsyncFunctionDef, ast.ClassDef)):
+                for owner, f in block_lists(st):
+                    setattr(owner, f, logless(getattr(owner, f)) or [ast.Pass()])
+            out.append(st)
+        return out
+    mod.body = logless(mod.body)
+    for n in ast.walk(mod):
+        if isinstance(n, ast.Name) and n.id in idx:
+            n.id = idx[n.id]
+        elif isinstance(n, ast.Name) and n.id == fn.name:
+            n.id = '$self'
+        elif isinstance(n, ast.Attribute) and n.attr == fn.name:
+            n.attr = '$self'
+    return hashlib.sha1((str(len(params)) + ast.dump(mod)).encode()).hexdigest()[:16]
+
+
 def signatures(fn):
     """{local name: signature}: what defines each local (and comprehension binder) of the function, in closed form -
     the text does not mention any single-assignment local, so it survives the renaming of the local itself and of the
@@ -325,12 +363,15 @@ def signatures(fn):
 
 # ------------------------------------------------------------------------------------------------ the pass
 class Canonicaliser:
-    def __init__(self, P, pinned=None, pinned_locals=None):
+    def __init__(self, P, pinned=None, pinned_locals=None, pinned_bodies=None):
         self.P = P
         self.pinned = load_pinned() if pinned is None else pinned
         if pinned_locals is None:
             pinned_locals = json.loads(PINNED_FILE.read_text()).get('locals', {})
         self.pinned_locals = pinned_locals
+        if pinned_bodies is None:
+            pinned_bodies = json.loads(PINNED_FILE.read_text()).get('bodies', {})
+        self.pinned_bodies = pinned_bodies       # qual -> [body digest, [positional parameter names]]
         self.log = []          # (kind, where, what) for the evidence file
         self.inlined = set()   # helper units folded at least once
         self.new_callables = {}    # simple name -> [(owner Cls|None, Mod, Unit)]
@@ -1520,6 +1561,70 @@ class Canonicaliser:
             return stmts
         do_list(fn.body)
 
+    # ---------------------------------------------------------------- renamed methods, functions and parameters
+    @staticmethod
+    def renamed_symbols(P, pinned, pinned_bodies):
+        """{new name: (owner class name or module short name, pinned name)} for the methods / module functions of the
+        reference decomposition that are missing while a function unknown to it, in the same class / module, does
+        exactly the same thing (body_hash): a rename. Computed on the raw tree; applied by renaming in the source."""
+        cur = {}
+        for m in P.mods.values():
+            for c in m.classes.values():
+                for table in (c.methods, c.props):
+                    for k, u in table.items():
+                        cur[c.name + '.' + k] = (u, c.name)
+            for k, u in m.funcs.items():
+                cur[m.short + ':' + k] = (u, m.short)
+        out = {}
+        for q, (h, params) in pinned_bodies.items():
+            if q in cur:
+                continue
+            owner = q.split(':')[0] if ':' in q else q.split('.')[0]
+            sep = ':' if ':' in q else '.'
+            cands = [k for k, (u, o) in cur.items() if o == owner and (sep in k) and k not in pinned
+                     and k not in pinned_bodies and body_hash(u.node) == h]
+            if len(cands) == 1:
+                out[cands[0]] = q
+        return out
+
+    def rename_back_symbols(self):
+        P = self.P
+        ren = self.renamed_symbols(P, self.pinned, self.pinned_bodies)
+        if ren:
+            pinned_names = {q.replace(':', '.').split('.')[-1] for q in self.pinned}
+            for new_q, old_q in ren.items():
+                new = new_q.replace(':', '.').split('.')[-1]
+                old = old_q.replace(':', '.').split('.')[-1]
+                if new in pinned_names:
+                    continue            # the new name also designates something of the reference tree: not touched
+                for m in P.mods.values():
+                    for n in ast.walk(m.tree):
+                        if isinstance(n, ast.Attribute) and n.attr == new:
+                            n.attr = old
+                        elif isinstance(n, ast.Name) and n.id == new:
+                            n.id = old
+                        elif isinstance(n, (ast.FunctionDef, ast.AsyncFunctionDef)) and n.name == new:
+                            n.name = old
+                        elif isinstance(n, ast.alias) and n.name == new:
+                            n.name = old
+                self.log.append(('renamed-symbol', new_q, '%s -> %s' % (new_q, old_q)))
+        # renamed positional parameters (same digest, other names)
+        for u in P.all_units(with_closures=False):
+            pb = self.pinned_bodies.get(u.qual)
+            if not pb or u.kind == 'setter':
+                continue
+            h, params = pb
+            fn = u.node
+            cur = [a.arg for a in fn.args.posonlyargs + fn.args.args]
+            if cur != params and len(cur) == len(params) and body_hash(fn) == h and \
+                    not (set(params) - set(cur)) & {n.id for n in ast.walk(fn) if isinstance(n, ast.Name)}:
+                rename = {c: p_ for c, p_ in zip(cur, params) if c != p_}
+                Subst({}, rename).visit(fn)
+                for a in fn.args.posonlyargs + fn.args.args:
+                    a.arg = rename.get(a.arg, a.arg)
+                self.log.append(('renamed-parameter', u.loc(), '%s: %s' % (u.qual, rename)))
+        return bool(ren)
+
     # ---------------------------------------------------------------- renamed locals
     def rename_back(self, unit, fn):
         """a local that the pinned tree does not know, defined exactly like a local of the pinned tree that is now
@@ -1577,6 +1682,12 @@ def canonical_program(root):
     from .model import Program
     P0 = Program(root)
     C = Canonicaliser(P0)
+    if C.rename_back_symbols():
+        # the model is rebuilt on the renamed trees before the other passes (they resolve names through it)
+        log = C.log
+        P0 = Program(root, trees={name: m.tree for name, m in P0.mods.items()})
+        C = Canonicaliser(P0)
+        C.log = log
     trees = C.run()
     P = Program(root, trees=trees)
     P.normalisation_log = C.log
